@@ -389,8 +389,12 @@ def main():
                                           'detail': 'move-only value type does not compile: ' + '; '.join(n['errors'][:2]), 'replay': path, 'plan': None, 'pre_gated': True}))
 
     seen_classes = {}
+    gated_per_class = {}
     for fl, v in violations:
-        # gate 2: fresh-process replay of the minimised plan
+        # gate 2: fresh-process replay of the minimised plan (the first few of every class; the rest are counted)
+        gated_per_class[v['class']] = gated_per_class.get(v['class'], 0) + 1
+        if gated_per_class[v['class']] > 4:
+            v = dict(v); v['pre_gated'] = True
         if not v.get('pre_gated'):
             rrc, rout, rerr = replay(fl, v['replay'])
             if rrc != 1:
